@@ -145,6 +145,23 @@ func (d Date) Less(input Any) (Boolean, error) {
 // Add returns the result of d + input. Returns an
 // error if it is not a valid time-valued quantity.
 func (d Date) Add(input Quantity) (Date, error) {
+	// Partial dates: convert the quantity to whole units of the date's
+	// precision first (1 year = 365 days, 1 month = 30 days), as Sub does.
+	if d.l == yearLayout {
+		years, err := input.toYears()
+		if err != nil {
+			return Date{}, err
+		}
+		return Date{d.date.AddDate(years, 0, 0), d.l}, nil
+	}
+	if d.l == monthLayout {
+		months, err := input.toMonths()
+		if err != nil {
+			return Date{}, err
+		}
+		return Date{d.date.AddDate(0, months, 0), d.l}, nil
+	}
+
 	var result time.Time
 	value := int(decimal.Decimal(input.value).IntPart())
 	switch input.unit {
